@@ -1,122 +1,159 @@
-(** C09 — helper reads: what one transition of the control LTS can change, for the single-level
-    communicator tree (every helper thread is a child of the engine thread). *)
+(** C09 — helper reads: what one transition of the control LTS can change (any communicator
+    tree), and the sub-tree structure the STOP_ACK traffic follows. *)
 From Coq Require Import ZArith List Bool Arith Lia.
 From Texel Require Import Workers.Workers Workers.WorkersLemmas Workers.WorkersInv Workers.WorkersInvProofs
   Workers.WorkersTac Workers.WorkersJob Workers.WorkersWake Workers.WorkersTheorems.
 Import ListNotations.
 
+(** in the middle of forwarding START_SEARCH *)
+Definition fwdstart (pcv : pcT) : bool :=
+  match pcv with PFwd (FStart _) _ _ => true | _ => false end.
+
+(** the helper's doSearch entry (the transition that reads the options and the table) *)
+Definition reads_now (s : state) (c : tid) : bool :=
+  match pc (th s c) with
+  | PPoll KMain => negb (qa (th s c) =? 0)%Z && negb (job (th s c) =? -1)%Z
+  | _ => false
+  end.
+
+(** communicator p is inside a stop round, child c has acknowledged this round and p has taken
+    the acknowledgement from its mailbox *)
+Definition ackdone (s : state) (p c : tid) : Prop :=
+  se (th s p) = S (ae (th s p)) /\ ae (th s c) = se (th s p) /\ acks c (qu s p) = 0.
+
 Section FR.
 Variable N : nat.
 Variable parent : tid -> option tid.
-Hypothesis Hflat : forall c, helper N c -> parent c = Some 0.
+Hypothesis Htree : tree_ok N parent.
 Notation InvE := (InvE N parent).
 Notation helper := (helper N).
 Notation lstep := (lstep N parent).
 
-Lemma flat_tree : tree_ok N parent.
-Proof. intros c Hc. exists 0. split; [apply Hflat; auto|]. lia. Qed.
+(** d is in the sub-tree rooted at c *)
+Inductive below (c : tid) : tid -> Prop :=
+| below_refl : below c c
+| below_step : forall d m, helper d -> parent d = Some m -> below c m -> below c d.
 
-Lemma flat_children : forall c, helper c -> children N parent c = [].
+Lemma below_hlp : forall c d, helper c -> below c d -> helper d.
+Proof. intros c d Hc B. destruct B; auto. Qed.
+
+Lemma below_ge : forall c d, helper c -> below c d -> c <= d.
 Proof.
-  intros c Hc. destruct (children N parent c) as [|x l] eqn:E; auto. exfalso.
-  assert (X : In x (children N parent c)) by (rewrite E; left; auto).
-  apply in_children in X. destruct X as (Hx & Hp). rewrite (Hflat x Hx) in Hp.
-  injection Hp as <-. unfold WorkersInv.helper in Hc. lia.
+  intros c d Hc B. induction B as [|d m Hd Hp B IH]; auto.
+  destruct (parent_le N parent Htree d m Hd Hp) as (_ & Hlt). lia.
 Qed.
 
-Lemma flat_no_fwd : forall s c w k rest, InvE s -> helper c -> pc (th s c) = PFwd w k rest -> False.
+(** from the top: d is c itself or lies below one of c's children *)
+Lemma below_top : forall c d, below c d ->
+  d = c \/ exists h, helper h /\ parent h = Some c /\ below h d.
 Proof.
-  intros s c w k rest I Hc Hpc.
-  destruct (e_fwd _ _ _ I c w k rest (helper_le _ _ Hc) Hpc) as (Hne & _ & Hin).
-  destruct rest as [|x r]; [congruence|]. specialize (Hin x (or_introl eq_refl)).
-  rewrite (flat_children c Hc) in Hin. destruct Hin.
+  intros c d B. induction B as [|d m Hd Hp B IH]; auto.
+  right. destruct IH as [->|(h & Hh & Hhp & Bh)].
+  - exists d. split; auto. split; auto. constructor.
+  - exists h. split; auto. split; auto. econstructor; eauto.
 Qed.
 
-(** START_SEARCH reaches a helper's mailbox only by a push of the (busy) engine thread *)
-Lemma start_queue_frame : forall s lb s' c j, InvE s -> helper c -> lstep s lb = Some s' ->
-  In (CStart j) (qu s' c) ->
-  In (CStart j) (qu s c) \/ (lb = LT 0 (APush c) /\ WorkersWake.mbusy (pc (th s 0)) = true).
+(** every helper lies below a child of the engine thread *)
+Lemma below_root_child : forall n d, d <= n -> helper d ->
+  exists c, helper c /\ parent c = Some 0 /\ below c d.
 Proof.
-  intros s lb s' c j I Hc H Hin.
+  induction n as [|n IH]; intros d Hdn Hd; [unfold WorkersInv.helper in Hd; lia|].
+  destruct (Htree d Hd) as (p & Hp & Hlt).
+  destruct p as [|p'].
+  - exists d. split; auto. split; auto. constructor.
+  - assert (Hph : helper (S p')) by (unfold WorkersInv.helper in *; lia).
+    destruct (IH (S p') ltac:(lia) Hph) as (c & Hc & Hc0 & Bc).
+    exists c. split; auto. split; auto. econstructor; eauto.
+Qed.
+
+(** a helper that has acknowledged its last round: so has its whole sub-tree *)
+Lemma sub_settled : forall s c, InvE s -> helper c -> ae (th s c) = se (th s c) ->
+  forall d, below c d -> se (th s d) = se (th s c) /\ ae (th s d) = se (th s c).
+Proof.
+  intros s c I Hc Ha d B. induction B as [|d m Hd Hp B IH]; [split; auto|].
+  destruct IH as (S1 & A1).
+  assert (Hm : helper m) by (apply (below_hlp c m Hc B)).
+  destruct (e_a1 _ _ _ I m Hm ltac:(lia)) as (_ & W & _).
+  destruct (child_settled N parent s m d I (helper_le _ _ Hm) W Hd Hp) as (A2 & S2 & _). lia.
+Qed.
+
+(** ---- frames ---- *)
+
+(** START_SEARCH reaches a helper's mailbox only by a push of its parent, which is forwarding it *)
+Lemma start_queue_frame : forall s lb s' c pp j, InvE s -> helper c -> parent c = Some pp ->
+  lstep s lb = Some s' -> In (CStart j) (qu s' c) ->
+  In (CStart j) (qu s c) \/ (lb = LT pp (APush c) /\ fwdstart (pc (th s pp)) = true).
+Proof.
+  intros s lb s' c pp j I Hc Hpp H Hin.
   assert (Hc0 : c <> 0) by (unfold WorkersInv.helper in Hc; lia).
   step_inv_fine H; crunch; auto.
-  (* helpers never forward; a helper's parent is the engine thread *)
-  all: try match goal with Hl : Nat.leb (S ?t) N = true, Hpc : pc (th _ (S ?t)) = PFwd _ _ _ |- _ =>
-         exfalso; apply (flat_no_fwd _ (S t) _ _ _ I (helper_leb N _ Hl) Hpc) end.
-  all: try match goal with Hl : Nat.leb (S ?t) N = true, Hp : parent (S ?t) = Some ?p |- _ =>
-         let X := fresh in pose proof (Hflat (S t) (helper_leb N _ Hl)) as X; rewrite Hp in X;
-         injection X as X; try (exfalso; lia); try congruence end.
   all: try (left; match goal with Hq : qu _ _ = _ :: _ |- _ => rewrite Hq end; right; assumption).
-  all: try (apply in_app_or in Hin; destruct Hin as [Hin|[Hin|[]]];
-            [left; first [apply in_purge in Hin; tauto | exact Hin] | try discriminate]).
-  all: try (right; split; reflexivity).
-  destruct w; cbn [fwd_purge fwd_cmd] in Hin;
-    (apply in_app_or in Hin; destruct Hin as [Hin|[Hin|[]]];
-     [left; first [apply in_purge in Hin; tauto | exact Hin] | try discriminate]).
-  right; split; reflexivity.
+  all: try (pcs_facts I).
+  all: try (fwd_facts I; assert (pp = 0) by congruence; subst pp).
+  all: try (fwd_facts I; match goal with Hl : Nat.leb (S ?t) N = true |- _ =>
+              assert (pp = S t) by congruence; subst pp end).
+  all: try match goal with w : fwd |- _ => destruct w end; cbn [fwd_purge fwd_cmd] in Hin.
+  all: apply in_app_or in Hin; destruct Hin as [Hin|[Hin|[]]];
+       try (left; first [apply in_purge in Hin; tauto | exact Hin]); try discriminate.
+  all: right; split; [reflexivity|]; use_eqs; reflexivity.
 Qed.
 
 (** a helper gets a job only by taking START_SEARCH from its mailbox *)
 Lemma job_frame : forall s lb s' c, InvE s -> helper c -> lstep s lb = Some s' ->
-  job (th s' c) <> (-1)%Z ->
-  job (th s c) <> (-1)%Z \/ (lb = LT c APop /\ exists j r, qu s c = CStart j :: r).
+  (job (th s' c) <> (-1)%Z \/ fwdstart (pc (th s' c)) = true) ->
+  (job (th s c) <> (-1)%Z \/ fwdstart (pc (th s c)) = true) \/
+  (lb = LT c APop /\ exists j r, qu s c = CStart j :: r).
 Proof.
   intros s lb s' c I Hc H Hj.
   assert (Hc0 : c <> 0) by (unfold WorkersInv.helper in Hc; lia).
   step_inv_fine H; crunch; auto.
-  all: try match goal with Hl : Nat.leb (S ?t) N = true, Hpc : pc (th _ (S ?t)) = PFwd _ _ _ |- _ =>
-         exfalso; apply (flat_no_fwd _ (S t) _ _ _ I (helper_leb N _ Hl) Hpc) end.
-  all: try (exfalso; apply Hj; reflexivity).
-  all: try (right; split; [reflexivity|]; eauto).
+  all: try (right; split; [reflexivity|]; eauto; fail).
+  all: use_eqs; cbn [fwdstart] in *; auto.
+  all: try (destruct Hj as [Hj|Hj]; [exfalso; apply Hj; reflexivity | discriminate]).
 Qed.
 
-(** a STOP_ACK of helper c gets into the engine thread's mailbox only by c's own push *)
-Lemma ack_frame : forall s lb s' c, InvE s -> helper c -> lstep s lb = Some s' ->
-  1 <= acks c (qu s' 0) ->
-  1 <= acks c (qu s 0) \/ lb = LT c (APush 0).
+(** a STOP_ACK of helper c gets into its parent's mailbox only by c's own push *)
+Lemma ack_frame : forall s lb s' c pp, InvE s -> helper c -> parent c = Some pp ->
+  lstep s lb = Some s' -> 1 <= acks c (qu s' pp) ->
+  1 <= acks c (qu s pp) \/ (lb = LT c (APush pp) /\ sendack (pc (th s c)) = true).
 Proof.
-  intros s lb s' c I Hc H Ha. pose proof flat_tree as Htree.
+  intros s lb s' c pp I Hc Hpp H Ha.
   assert (Hc0 : c <> 0) by (unfold WorkersInv.helper in Hc; lia).
   step_inv_fine H; crunch; auto.
-  all: try match goal with Hl : Nat.leb (S ?t) N = true, Hpc : pc (th _ (S ?t)) = PFwd _ _ _ |- _ =>
-         exfalso; apply (flat_no_fwd _ (S t) _ _ _ I (helper_leb N _ Hl) Hpc) end.
-  all: rewrite ?acks_app, ?acks_cons, ?acks_nil in *; try lia.
-  all: try (fwd_facts I; congruence).
+  all: rewrite ?acks_app, ?acks_cons, ?acks_nil, ?acks_purge in *; try lia.
   all: try (pcs_facts I).
-  all: try match goal with c0 : cmd |- _ => destruct c0 end; cbn [bump_ae is_ack_from] in *;
-       rewrite ?acks_app, ?acks_cons, ?acks_nil in *; cbn [is_ack_from] in *; try lia.
-  all: try (rewrite Heql0, acks_nil in Ha; lia).
-  all: try (fwd_facts I; congruence).
-  all: eqb_cases; try (right; reflexivity); try lia.
+  all: try match goal with c0 : cmd |- _ => destruct c0 end; cbn [bump_ae is_ack_from fwd_cmd] in *;
+       rewrite ?acks_app, ?acks_cons, ?acks_nil, ?acks_purge in *; cbn [is_ack_from] in *; try lia.
+  all: try match goal with w : fwd |- _ => destruct w end; cbn [fwd_purge fwd_cmd] in *;
+       rewrite ?acks_app, ?acks_cons, ?acks_nil, ?acks_purge in *; cbn [is_ack_from] in *; try lia.
+  all: use_eqs; rewrite ?acks_app, ?acks_cons, ?acks_nil, ?acks_purge in *; cbn [is_ack_from] in *; try lia.
+  all: eqb_cases; try lia.
+  all: right; split; [reflexivity|]; use_eqs; reflexivity.
 Qed.
-(** "c has acknowledged the engine thread's current stop round and the ack has been taken":
-    becomes true only when the engine thread takes c's STOP_ACK from its mailbox *)
-Lemma acked_frame : forall s lb s' c, InvE s -> helper c -> lstep s lb = Some s' ->
-  mphase (pc (th s' 0)) = Some PhStop -> ae (th s' c) = se (th s' 0) -> acks c (qu s' 0) = 0 ->
-  (mphase (pc (th s 0)) = Some PhStop /\ ae (th s c) = se (th s 0) /\ acks c (qu s 0) = 0) \/
-  (lb = LT 0 APop /\ exists r, qu s 0 = CStopAck c :: r).
+
+(** "c has acknowledged p's current stop round and p has taken the acknowledgement" becomes true
+    only when p takes c's STOP_ACK from its mailbox *)
+Lemma acked_frame : forall s lb s' c pp, InvE s -> helper c -> parent c = Some pp ->
+  lstep s lb = Some s' -> ackdone s' pp c ->
+  ackdone s pp c \/ (lb = LT pp APop /\ exists r, qu s pp = CStopAck c :: r).
 Proof.
-  intros s lb s' c I Hc H Hm Ha Hk. pose proof flat_tree as Htree.
+  intros s lb s' c pp I Hc Hpp H (Hr & Ha & Hk). unfold ackdone.
   assert (Hc0 : c <> 0) by (unfold WorkersInv.helper in Hc; lia).
-  destruct (e_g1 _ _ _ I c (helper_le _ _ Hc)) as (_ & G1).
+  destruct (parent_le N parent Htree c pp Hc Hpp) as (HppN & Hlt).
+  pose proof (inv_child_le N parent s c pp I Hc Hpp) as CL.
   destruct (e_g2 _ _ _ I c Hc) as (_ & G2 & _).
+  assert (G3 : se (th s pp) <= S (ae (th s pp))).
+  { destruct pp as [|p']; [apply (inv_se0 N parent s I)|].
+    apply (e_g2 _ _ _ I (S p')). unfold WorkersInv.helper in *; lia. }
   step_inv_fine H; crunch; auto.
-  all: use_eqs; cbn [mphase] in Hm; try discriminate.
-  all: repeat match type of Hm with context [match ?x with _ => _ end] => destruct x; try discriminate end.
   all: try lia.
-  all: try match goal with Hl : Nat.leb (S ?t) N = true, Hpc : pc (th _ (S ?t)) = PFwd _ _ _ |- _ =>
-         exfalso; apply (flat_no_fwd _ (S t) _ _ _ I (helper_leb N _ Hl) Hpc) end.
   all: try (pcs_facts I).
-  all: try match goal with c0 : cmd |- _ => destruct c0 end; cbn [bump_ae] in *; ssimpl.
-  all: rewrite ?acks_app, ?acks_cons, ?acks_nil, ?acks_purge in *; cbn [is_ack_from] in *.
+  all: try match goal with c0 : cmd |- _ => destruct c0 end; cbn [bump_ae is_ack_from fwd_cmd] in *; ssimpl.
+  all: try match goal with w : fwd |- _ => destruct w end; cbn [fwd_purge fwd_cmd] in *.
+  all: use_eqs; rewrite ?acks_app, ?acks_cons, ?acks_nil, ?acks_purge in *; cbn [is_ack_from] in *.
   all: eqb_cases; try lia.
   all: try (right; split; [reflexivity|]; eexists; reflexivity).
   all: try (left; repeat split; auto; lia).
-  all: try (fwd_facts I; congruence).
-  all: try (phase_facts' I; fail).
-  all: try match goal with Hl : Nat.leb (S ?t) N = true, Hp : parent (S ?t) = Some ?p |- _ =>
-         let X := fresh in pose proof (Hflat (S t) (helper_leb N _ Hl)) as X; rewrite Hp in X;
-         injection X as X; congruence end.
 Qed.
 
 (** the engine thread becomes idle only by passing the stop-ack barrier *)
@@ -129,12 +166,5 @@ Proof.
   all: try (left; phase_facts' I; reflexivity).
   all: use_eqs; cbn [mphase] in *; auto; try discriminate.
 Qed.
-
-(** the helper's doSearch entry (the transition that reads the options and the table) *)
-Definition reads_now (s : state) (c : tid) : bool :=
-  match pc (th s c) with
-  | PPoll KMain => negb (qa (th s c) =? 0)%Z && negb (job (th s c) =? -1)%Z
-  | _ => false
-  end.
 
 End FR.
